@@ -242,3 +242,41 @@ def gen(rng, tier):
                 ops.append(("clone",))
         cases.append(WinCase(("new", n, 999), ops, "random-program"))
     return cases
+
+
+def gen_safe(rng, tier):
+    """programs made only of calls on which the default build cannot panic (C19's quantifier): every
+    observer on empty windows built in every way, get with every index, and full programs for n >= 1"""
+    cases = []
+    safe0 = [("len",), ("isempty",), ("slice",), ("iterall",), ("iterrevall",), ("serde",), ("reparts",), ("clone",)] + \
+            [("get", i) for i in (0, 1, 2, 254, 255)] + [("iter", k) for k in (0, 1, 2)] + [("iterrev", k) for k in (0, 1, 2)]
+    for ctor in (("new", 0, 7), ("empty",), ("vec", []), ("parts", [], 0), ("deser", [], 0)):
+        cases.append(WinCase(ctor, list(safe0), "safe-empty"))
+        cases.append(WinCase(ctor, [("serdeswap",)] + list(safe0) + [("repartsswap",)] + list(safe0), "safe-empty"))
+    for n in range(1, 6 if tier == "quick" else 9):
+        for p in range(0, 2 * n + 2):
+            ops = [("push", 100 + j) for j in range(p)]
+            ops += [("len",), ("isempty",), ("newest",), ("oldest",), ("slice",), ("iterall",), ("iterrevall",), ("serde",), ("reparts",)]
+            ops += [("get", i) for i in list(range(0, n + 2)) + [254, 255]] + [("index", i) for i in range(0, n)]
+            ops += [("iter", k) for k in range(0, n + 2)] + [("iterrev", k) for k in range(0, n + 2)]
+            cases.append(WinCase(("new", n, 7), ops, "safe-program"))
+    for k in range(20 if tier == "quick" else 200):
+        r = rng.fork("safe%d" % k)
+        n = r.choice([1, 2, 3, 5, 8, 17, 64, 254])
+        ops = []
+        for _ in range(120):
+            u = r.below(10)
+            if u < 4:
+                ops.append(("push", r.range(0, 10 ** 6)))
+            elif u < 6:
+                ops.append(("get", r.choice([0, n - 1, n, n + 1 if n < 255 else 255, r.range(0, 255)])))
+            elif u == 6:
+                ops.append(("index", r.range(0, n - 1)))
+            elif u == 7:
+                ops.append((r.choice(["iter", "iterrev"]), r.range(0, n + 1)))
+            elif u == 8:
+                ops.append((r.choice(["newest", "oldest", "serdeswap", "repartsswap", "clone"]),))
+            else:
+                ops.append((r.choice(["iterall", "iterrevall", "slice", "serde"]),))
+        cases.append(WinCase(("new", n, 999), ops, "safe-random"))
+    return cases
